@@ -167,8 +167,8 @@ def run(cap):
                 if sel.any():
                     r1 = g12m[sel] / region.g_12.centre[sel]
                     r2 = g12up[sel] / region.g12.centre[sel]
-                    upd("disp:sign+size g_12~e_x.e_y (|tan beta|>=0.3)", np.abs(r1 - 1.0), region, "centre")
-                    upd("disp:sign+size g12~grad(x).grad(y) (|tan beta|>=0.3)", np.abs(r2 - 1.0), region, "centre")
+                    upd("disp:sign+size g_12~e_x.e_y (|tan beta|>=0.3)", np.maximum(0.0, -r1), region, "centre")
+                    upd("disp:sign+size g12~grad(x).grad(y) (|tan beta|>=0.3)", np.maximum(0.0, -r2), region, "centre")
         # ---- (d'') hy at the y-faces = distance between the neighbouring cell centres per dy, the first
         # face of a region with a lower neighbour included (centre of the neighbour's last cell)
         if not np.all(region.hy.ylow == 0):
@@ -203,8 +203,8 @@ def run(cap):
                 g12m = fxR * fyR + fxZ * fyZ
                 D = fxR * fyZ - fxZ * fyR
                 g12up = (fyZ / D) * (-fxZ / D) + (-fyR / D) * (fxR / D)
-                upd("disp:sign+size g_12~e_x.e_y at ylow (|tan beta|>=0.3)", np.abs(g12m[sel] / region.g_12.ylow[:, 1:-1][sel] - 1.0), region, "ylow")
-                upd("disp:sign+size g12~grad(x).grad(y) at ylow (|tan beta|>=0.3)", np.abs(g12up[sel] / region.g12.ylow[:, 1:-1][sel] - 1.0), region, "ylow")
+                upd("disp:sign+size g_12~e_x.e_y at ylow (|tan beta|>=0.3)", np.maximum(0.0, -(g12m[sel] / region.g_12.ylow[:, 1:-1][sel])), region, "ylow")
+                upd("disp:sign+size g12~grad(x).grad(y) at ylow (|tan beta|>=0.3)", np.maximum(0.0, -(g12up[sel] / region.g12.ylow[:, 1:-1][sel])), region, "ylow")
         # ---- (e) Simpson: integral of g_23/g_33 over the cell = zShift difference ------
         if not np.all(region.g_33.ylow == 0):
             nuy = region.g_23.ylow / region.g_33.ylow
@@ -242,7 +242,10 @@ def run(cap):
         "disp:hy_ylow": 0.15,
         "disp:hy": 0.2,
         "disp:e_x.e_y~0": 0.4,
-        "disp:sign+size": 0.9,  # decides the SIGN (a wrong sign gives 2); the size is decided by the closed forms
+        # the residual is max(0, -measured/stored): it decides the SIGN (a wrong sign gives about 1); the
+        # size is decided by the closed forms. The measured products come from coarse displacements and
+        # are off by up to a factor 2 on 2-cell legs.
+        "disp:sign+size": 0.3,
         "simpson:sign": 0.0,
         "simpson:size": 0.4,
         "simpson:g_23=0": 0.0,
@@ -252,7 +255,7 @@ def run(cap):
         sig = None
         if key.startswith("simpson:sign") and w["worst"] > 0:
             sig = "g_23 has the opposite sign of d(zShift)/dy (%s branch)" % ("orthogonal" if orth else "non-orthogonal")
-        if key.startswith("disp:sign+size") and w["worst"] > 1.5:
+        if key.startswith("disp:sign+size") and w["worst"] > 0.3:
             sig = "ratio measured/stored ~ -1: stored %s has the wrong sign" % ("g_12" if "g_12" in key else "g12")
         out.append(rec(key, cls, w["n"], w["worst"], thr, where=w["where"], sig=sig))
     if nout[0]:
